@@ -55,4 +55,5 @@ def main(tier, replay=None):
                        "live managed objects; distinct = program; arena programs place objects at addresses colliding modulo 5, 11, 23, 53")
     chk.assumptions += ["registry contents observed through the #include \"GC.c\" seam (falls back to mem() only if the struct is refactored)"]
     camp.report()
+    runner.run_pinned(chk, {})          # open findings of this property: listed, identified by the input each entry describes
     return chk.finish()
